@@ -237,6 +237,8 @@ def requested_vs_actual(cfg, fs, dev_blocks):
     # per group fit one bitmap block ("retry:" loop) - two requests that cannot both be met, the inode count wins
     g_req = int(o[o.index("-g") + 1]) if "-g" in o else 0
     n_req = int(o[o.index("-N") + 1]) if "-N" in o else 0
+    if not n_req and "-i" in o:
+        n_req = dev_blocks * fs.bs // max(1, int(o[o.index("-i") + 1]))      # the inode ratio asks for this many
     conflict = bool(g_req and n_req and -(-n_req // max(1, -(-(dev_blocks - (1 if fs.bs == 1024 else 0)) // g_req))) > fs.bs * 8 and fs.blocks_per_group < g_req)
     if "-g" in o and fs.blocks_per_group != g_req and not fs.ro_compat & RO_BIGALLOC and not conflict:
         bad.append("blocks per group %d, requested %s" % (fs.blocks_per_group, o[o.index("-g") + 1]))
@@ -269,6 +271,8 @@ def requested_vs_actual(cfg, fs, dev_blocks):
             bad.append("feature %s requested but not set" % name)
         if name == "has_journal" and "-J" in cfg["opts"]:
             continue                                              # -J asks for a journal: contradictory request, either outcome is fine
+        if name == "resize_inode" and any(x.startswith("resize=") for x in cfg["ext"]):
+            continue                                              # -E resize= asks for the reserved GDT blocks that ^resize_inode denies
         if not want and have and name not in ("large_file",):     # large_file is set when needed
             if name == "resize_inode" or name == "sparse_super" or True:
                 bad.append("feature %s disabled on the command line but set" % name)
